@@ -400,6 +400,42 @@ func (g *Gen) taiArg(n int, mode int) string {
 	return strings.Join(parts, ",")
 }
 
+// taiArgTacs: a single-PLMN list whose TACs come from a small arithmetic family base, base+1, ...: consecutive (shape 0), the same
+// values shuffled (1), with a duplicate (2), first and last n-1 apart but arbitrary in between (3), descending (4). An encoder
+// that picks a compact list form from a property of some entries must still let a decoder recover exactly this list.
+func (g *Gen) taiArgTacs(n int, shape int) string {
+	mcc, mnc := g.plmn()
+	base := g.Intn(0xfffff0)
+	tacs := make([]int, n)
+	for i := range tacs {
+		tacs[i] = base + i
+	}
+	switch shape {
+	case 1:
+		for i := n - 2; i > 1; i-- {
+			j := 1 + g.Intn(i)
+			tacs[i], tacs[j] = tacs[j], tacs[i]
+		}
+	case 2:
+		if n > 2 {
+			tacs[1+g.Intn(n-2)] = tacs[0]
+		}
+	case 3:
+		for i := 1; i < n-1; i++ {
+			tacs[i] = g.Intn(1 << 24)
+		}
+	case 4:
+		for i := range tacs {
+			tacs[i] = base + n - 1 - i
+		}
+	}
+	var parts []string
+	for _, t := range tacs {
+		parts = append(parts, fmt.Sprintf("%s:%s:%s", hx(mcc), hx(mnc), hx(fmt.Sprintf("%06x", t))))
+	}
+	return strings.Join(parts, ",")
+}
+
 func genConv13(g *Gen, w *bufio.Writer) {
 	thorough := g.Tier == "thorough"
 	// S-NSSAI: every SST with and without SD
@@ -478,6 +514,9 @@ func genConv13(g *Gen, w *bufio.Writer) {
 			}
 			for k := 0; k < reps; k++ {
 				fmt.Fprintf(w, "conv tailist %s\n", g.taiArg(n, mode))
+				if n <= 16 {
+					fmt.Fprintf(w, "conv tailist %s\n", g.taiArgTacs(n, mode))
+				}
 				if n <= 16 {
 					fmt.Fprintf(w, "conv ladn2n %s %s\n", hexs(g.Bytes(g.Intn(20))), g.taiArg(n, mode))
 				}
